@@ -1225,6 +1225,8 @@ def generate_sample(
 
     calling_form = types.CallingForm.method_default(rpc)
     sample["is_internal"] = rpc.is_internal
+    # The client method of an RPC named by a Python keyword carries a trailing underscore.
+    sample["is_keyword_rpc"] = rpc.name.lower() in keyword.kwlist
 
     v = Validator(rpc, api_schema)
     # Tweak some small aspects of the sample to set defaults for optional
